@@ -129,6 +129,8 @@ def sortedness(v, assume=()):
             return "unknown"
         if v.fn == "concat" and len(v.args) >= 2:
             return "unsorted"
+        if v.fn in ("concat_seq",):
+            return "unsorted"
         if v.fn in ("store",):
             return "unknown"
         return "unknown"
